@@ -39,6 +39,17 @@ theorem bcast_length (f : Int → Int → Int) {a b c : List Int} (h : bcast f a
     · injection h with h; subst h; right; right; simp
     · cases h
 
+/-- a broadcast either fails with `ValueError` or yields an array -/
+theorem bcast_cases (f : Int → Int → Int) (a b : List Int) :
+    bcast f a b = .error .valueError ∨ ∃ c, bcast f a b = .ok c := by
+  unfold bcast
+  split
+  · exact Or.inr ⟨_, rfl⟩
+  · split
+    · exact Or.inr ⟨_, rfl⟩
+    · exact Or.inr ⟨_, rfl⟩
+    · exact Or.inl rfl
+
 theorem stackMin_eq_len {a b : List Int} (h : a.length = b.length) : stackMin a b = .ok (List.zipWith min a b) := by
   unfold stackMin; rw [if_pos h]
 theorem stackMax_eq_len {a b : List Int} (h : a.length = b.length) : stackMax a b = .ok (List.zipWith max a b) := by
